@@ -7,6 +7,16 @@ package queue
 // (format documented in lean/Driver/C10.lean).  The recording target's view of every attempt is the
 // correspondence observation; the monitor compares it, byte for byte, with what was handed to the
 // queue, and greps every spool file for the credentials of the fake authenticated connection.
+//
+// The monitor also judges the other half of the property - the target IS handed the message for as
+// long as recipients are pending: by the recording target's OWN answers it knows who is pending
+// after every attempt; a further attempt step of the history that does not take place, or a spool
+// entry that is gone / incomplete / altered at rest while somebody is pending, is
+// C10/pending-message-dropped (resp. C10/spool-content-changed).  First step `R`: Commit is answered
+// by a queue that is already shutting down (time wheel stopped: nothing is dispatched, the client
+// still gets its 250), then the server restarts - a restart BEFORE the first attempt of an accepted
+// message.  First step `r`: crash between Body and Commit (the message was never acknowledged: the
+// drop rule does not apply, everything else does).
 
 import (
 	"bytes"
@@ -51,6 +61,7 @@ func c10Digest(b []byte) uint32 {
 
 type c10Step struct {
 	restart  bool
+	commit   bool // first step only: restart after a Commit that dispatched nothing
 	partial  bool
 	letters  string // per ORIGINAL recipient position
 }
@@ -138,10 +149,12 @@ func c10ParseCase(op string) (*c10Case, error) {
 		}
 		return out
 	}
-	for _, s := range strings.Split(t[2], ".") {
+	for si, s := range strings.Split(t[2], ".") {
 		switch {
 		case s == "r":
 			c.steps = append(c.steps, c10Step{restart: true})
+		case s == "R" && si == 0:
+			c.steps = append(c.steps, c10Step{restart: true, commit: true})
 		case len(s) >= 2 && s[0] == 'a' && (s[1] == 'P' || s[1] == 'A'):
 			c.steps = append(c.steps, c10Step{partial: s[1] == 'P', letters: s[2:]})
 		default:
@@ -449,6 +462,8 @@ func c10ScanSpool(dir string, secrets [][]byte) string {
 type c10LogOut struct {
 	mu      *sync.Mutex
 	readErr *int
+	loaded  *int
+	term    *[]string
 }
 
 func (o c10LogOut) Write(_ time.Time, _ bool, msg string) {
@@ -457,6 +472,25 @@ func (o c10LogOut) Write(_ time.Time, _ bool, msg string) {
 	if strings.Contains(msg, "read message") || strings.Contains(msg, "failed to read meta-data") {
 		o.mu.Lock()
 		*o.readErr++
+		o.mu.Unlock()
+	}
+	// tryDelivery gave a recipient up (permanent failure or retry budget exhausted; a DSN is due):
+	// a terminal outcome was recorded for it
+	const gaveUp = "not delivered, permanent error\t"
+	if i := strings.Index(msg, gaveUp); i >= 0 {
+		var f struct {
+			Rcpt string `json:"rcpt"`
+		}
+		if json.Unmarshal([]byte(msg[i+len(gaveUp):]), &f) == nil {
+			o.mu.Lock()
+			*o.term = append(*o.term, f.Rcpt)
+			o.mu.Unlock()
+		}
+	}
+	// readDiskQueue: "loaded %d saved queue entries" - this instance scheduled something from the spool
+	if strings.Contains(msg, "loaded ") && strings.Contains(msg, "saved queue entries") {
+		o.mu.Lock()
+		*o.loaded++
 		o.mu.Unlock()
 	}
 }
@@ -483,6 +517,11 @@ type c10World struct {
 	tgt      *c10Target
 	logMu    sync.Mutex
 	readErrs int
+	terminal []string // recipients the queue logged a terminal failure for
+	loaded   int  // "loaded N saved queue entries" lines of the current queue instance
+	fromDisk bool // the current queue instance was started on a spool (after a restart)
+	idled    bool // a queue instance started on a non-empty spool scheduled nothing
+	acked    bool // Commit returned: the message was acknowledged to whoever handed it over
 	q        *Queue
 	leaks    []string
 	timedOut bool
@@ -524,7 +563,10 @@ func (w *c10World) newQ(idle bool) *Queue {
 	q.location = w.spool
 	q.Target = w.tgt
 	q.hostname = "mx.example.org"
-	q.Log = log.Logger{Out: c10LogOut{&w.logMu, &w.readErrs}}
+	q.Log = log.Logger{Out: c10LogOut{&w.logMu, &w.readErrs, &w.loaded, &w.terminal}}
+	w.logMu.Lock()
+	w.loaded = 0
+	w.logMu.Unlock()
 	w.tgt.mu.Lock()
 	w.tgt.q = q
 	w.tgt.mu.Unlock()
@@ -550,15 +592,32 @@ func (w *c10World) wait(want int) {
 		limit = 500 * time.Millisecond
 	}
 	deadline := time.Now().Add(limit)
+	var idleSince time.Time
 	for {
 		w.tgt.mu.Lock()
 		done := w.tgt.done
+		started := len(w.tgt.seen)
 		w.tgt.mu.Unlock()
 		w.logMu.Lock()
 		re := w.readErrs
+		ld := w.loaded
 		w.logMu.Unlock()
 		if done >= want || re > 0 {
 			return
+		}
+		// a queue instance whose readDiskQueue did not report a single loaded entry and whose time
+		// wheel is empty is not going to deliver anything: no need to sit out the whole limit (never
+		// the case on a tree that schedules what is in its spool; half a second of grace for one that schedules
+		// without saying so)
+		if w.fromDisk && ld == 0 && started == done && c10WheelEmpty(w.q) {
+			if idleSince.IsZero() {
+				idleSince = time.Now()
+			} else if time.Since(idleSince) > 500*time.Millisecond {
+				w.idled = true
+				return
+			}
+		} else {
+			idleSince = time.Time{}
 		}
 		if ents, _ := os.ReadDir(w.spool); len(ents) == 0 {
 			return
@@ -570,6 +629,12 @@ func (w *c10World) wait(want int) {
 		}
 		time.Sleep(200 * time.Microsecond)
 	}
+}
+
+func c10WheelEmpty(q *Queue) bool {
+	q.wheel.slotsLock.Lock()
+	defer q.wheel.slotsLock.Unlock()
+	return q.wheel.slots.Len() == 0
 }
 
 // drive plays the history on the real queue. The message is already stored (Body returned);
@@ -611,7 +676,9 @@ func (w *c10World) drive(steps []c10Step, committed bool) {
 		for i+m < len(steps) && steps[i+m].restart {
 			m++
 		}
-		if !committed && i == 0 {
+		if i == 0 {
+			// nothing was dispatched: crash between Body and Commit (`r`), or Commit answered by a
+			// queue whose wheel was already stopped (`R`); Close is idempotent
 			q.deliveryWg.Wait()
 			q.Close()
 		}
@@ -629,6 +696,7 @@ func (w *c10World) drive(steps []c10Step, committed bool) {
 			break
 		}
 		q = w.newQ(false)
+		w.fromDisk = true
 	}
 	if len(steps) == 0 {
 		q.Close()
@@ -809,11 +877,128 @@ func (w *c10World) monitor(out *vh.Out, op string, acc *c10Accepted, strictEnv b
 			out.Violation("C10/body-len-mismatch", op, fmt.Sprintf("%sBuffer.Len() = %d but %d bytes can be read", at, s.lenMethod, s.bodyLen))
 		}
 	}
+	w.monitorPending(out, op, acc, strictEnv, seen, eqL)
 	if acc.wf && len(w.events) > 0 {
 		out.Violation("C10/spool-unreadable", op, "the queue could not re-read a message it accepted (well-formed header)")
 	}
 	if len(seen) > len(w.tgt.attempts) {
 		out.Violation("C10/unplanned-attempt", op, fmt.Sprintf("%d attempts, history has %d", len(seen), len(w.tgt.attempts)))
+	}
+}
+
+// monitorPending: the other half of the property. "What the queue hands to the downstream target
+// is ... the recipients still pending ... on the first attempt, on retries, and after a restart":
+// for as long as the target's OWN answers leave somebody pending (temporary failure; no delivery, no
+// permanent failure, no exhausted retry budget - the harness allows 1000 tries), the message has to
+// be attempted again when the history says so (the harness gives the queue a zero retry delay resp.
+// a fresh non-idle instance and a generous time limit) and has to be in the spool, complete and
+// unaltered, whenever the queue is at rest.  Judged from the recording target's answers and the
+// spool files only - not from the model.
+func (w *c10World) monitorPending(out *vh.Out, op string, acc *c10Accepted, strictEnv bool, seen []*c10Seen, eqL func(a, b []string) bool) {
+	if !acc.wf || (!acc.envUTF8 && !strictEnv) {
+		return // outside the property's domain (see monitor)
+	}
+	if !w.acked {
+		out.Stat("pending-rule.not-applicable.never-acknowledged")
+		return
+	}
+	pend := append([]string{}, acc.to...)
+	for _, s := range seen {
+		pend = s.answeredTemp
+	}
+	// the queue's own record of a terminal outcome (it gave the recipient up and owes a DSN: whether
+	// THAT was right is C01/C18's business) ends the obligation for that recipient
+	w.logMu.Lock()
+	term := append([]string{}, w.terminal...)
+	w.logMu.Unlock()
+	if len(term) > 0 {
+		var still []string
+		for _, r := range pend {
+			gone := false
+			for _, t := range term {
+				if t == r {
+					gone = true
+				}
+			}
+			if !gone {
+				still = append(still, r)
+			}
+		}
+		if len(still) != len(pend) {
+			out.Stat("pending-rule.terminal-outcome-recorded-for-a-deferred-recipient")
+		}
+		pend = still
+	}
+	if len(pend) == 0 {
+		out.Stat("pending-rule.nobody-pending-at-the-end")
+		return
+	}
+	spoolState := func() (string, map[string][]byte) {
+		ents, _ := os.ReadDir(w.spool)
+		files := map[string][]byte{}
+		var names []string
+		for _, e := range ents {
+			n := e.Name()
+			if strings.HasPrefix(n, acc.id) {
+				n = "ID" + n[len(acc.id):]
+			}
+			names = append(names, n)
+			if n == "ID.header" || n == "ID.body" {
+				files[n], _ = os.ReadFile(filepath.Join(w.spool, e.Name()))
+			} else {
+				files[n] = nil
+			}
+		}
+		sort.Strings(names)
+		if len(names) == 0 {
+			return "empty", files
+		}
+		return strings.Join(names, ","), files
+	}
+	names, files := spoolState()
+	after := "before any attempt"
+	if len(seen) > 0 {
+		after = fmt.Sprintf("after attempt %d", len(seen))
+	}
+	why := ""
+	switch {
+	case w.idled:
+		why = " (the queue instance started on the spool scheduled nothing)"
+	case w.timedOut:
+		why = " (waited for the time limit)"
+	}
+	if len(seen) < len(w.tgt.attempts) {
+		out.Stat("pending-rule.violated.next-attempt-missing")
+		out.Violation("C10/pending-message-dropped", op, fmt.Sprintf("%s recipients %q were still pending (no terminal outcome), but attempt %d of the history never took place%s; spool: %s; accepted body %d bytes, header %d bytes",
+			after, pend, len(seen)+1, why, names, len(acc.body), len(acc.hdr)))
+		return
+	}
+	// at rest at the end of the history (possibly after further restarts)
+	_, hasMeta := files["ID.meta"]
+	hdrFile, hasHdr := files["ID.header"]
+	bodyFile, hasBody := files["ID.body"]
+	if !hasMeta || !hasHdr || !hasBody {
+		out.Stat("pending-rule.violated.left-the-spool")
+		out.Violation("C10/pending-message-dropped", op, fmt.Sprintf("%s recipients %q are still pending (no terminal outcome), but the message is not in the spool any more; spool: %s; accepted body %d bytes, header %d bytes",
+			after, pend, names, len(acc.body), len(acc.hdr)))
+		return
+	}
+	out.Stat("pending-rule.checked.at-rest")
+	if m, err := w.q.readMessageMeta(acc.id); err != nil {
+		out.Violation("C10/spool-unreadable", op, "at rest with recipients pending: "+err.Error())
+	} else {
+		if !eqL(m.To, pend) {
+			out.Violation("C10/pending-recipients-changed", op, fmt.Sprintf("at rest %s: the spool lists %q, still pending %q", after, m.To, pend))
+		}
+		if m.From != acc.from {
+			out.Violation("C10/sender-changed", op, fmt.Sprintf("at rest %s: the spool has sender %q, accepted %q", after, m.From, acc.from))
+		}
+	}
+	if !bytes.Equal(hdrFile, acc.hdr) {
+		out.Violation("C10/spool-content-changed", op, fmt.Sprintf("at rest %s: header file %d bytes digest %d, accepted %d bytes digest %d", after, len(hdrFile), c10Digest(hdrFile), len(acc.hdr), c10Digest(acc.hdr)))
+	}
+	if !bytes.Equal(bodyFile, acc.body) {
+		out.Violation("C10/spool-content-changed", op, fmt.Sprintf("at rest %s: body file %d bytes digest %d, accepted %d bytes digest %d", after, len(bodyFile), c10Digest(bodyFile), len(acc.body), c10Digest(acc.body)))
 	}
 }
 
@@ -848,6 +1033,50 @@ func (w *c10World) stats(out *vh.Out, pfx string, steps []c10Step, acc *c10Accep
 		out.Stat(pfx + ".body.ge4KiB")
 	default:
 		out.Stat(pfx + ".body.small")
+	}
+	// the spool path proper: an attempt that took place after a restart, by body size and header size
+	restartSeen, afterRestart := false, false
+	na := 0
+	for _, st := range steps {
+		if st.restart {
+			restartSeen = true
+		} else {
+			if restartSeen && na < len(seen) {
+				afterRestart = true
+			}
+			na++
+		}
+	}
+	if afterRestart {
+		cls := ""
+		switch n := len(acc.body); {
+		case n <= 2:
+			cls = strconv.Itoa(n) + "B"
+		case n < 4096:
+			cls = "lt4KiB"
+		case n <= 4097:
+			cls = "4KiB+-1"
+		case n < 32767:
+			cls = "lt32KiB"
+		case n <= 32769:
+			cls = "32KiB+-1"
+		case n < 1<<20-1:
+			cls = "lt1MiB"
+		case n <= 1<<20+1:
+			cls = "1MiB+-1"
+		default:
+			cls = "gt1MiB"
+		}
+		out.Stat(pfx + ".attempt-after-restart.body-" + cls)
+		if len(acc.fields) == 0 {
+			out.Stat(pfx + ".attempt-after-restart.header-without-fields")
+		}
+		if len(steps) > 0 && steps[0].restart && steps[0].commit {
+			out.Stat(pfx + ".first-attempt-after-restart.body-" + cls)
+		}
+	}
+	if len(acc.fields) == 0 {
+		out.Stat(pfx + ".header-without-fields")
 	}
 	out.Stat(pfx + ".wf" + c10Bit(acc.wf))
 	out.Stat(pfx + ".envelope-utf8." + c10Bit(acc.envUTF8))
@@ -1006,11 +1235,23 @@ func c10Run(out *vh.Out, op string) {
 	}
 	w.scan("after Body")
 	committed := false
-	if len(c.steps) > 0 && !c.steps[0].restart {
+	if len(c.steps) > 0 && (!c.steps[0].restart || c.steps[0].commit) {
+		if c.steps[0].commit {
+			// the server is shutting down while the transaction completes: Queue.Close has stopped the
+			// time wheel, Commit is still answered - nothing is dispatched, the message is in the spool
+			q.wheel.Close()
+		}
 		if err := d.Commit(ctx); err != nil {
-			panic(err)
+			if !c.steps[0].commit {
+				panic(err)
+			}
+			out.Corr(op, "commit-refused")
+			out.Note("a stopping queue refused Commit: " + err.Error())
+			q.Close()
+			return
 		}
 		committed = true
+		w.acked = true
 	}
 	bodyBuf.Remove() // endpoint/smtp removes its buffer as soon as DATA returns
 
@@ -1022,7 +1263,11 @@ func c10Run(out *vh.Out, op string) {
 	// --- distribution
 	w.stats(out, "run", c.steps, acc, fin)
 	if len(c.steps) > 0 && c.steps[0].restart {
-		out.Stat("run.crash-before-commit")
+		if c.steps[0].commit {
+			out.Stat("run.restart-after-commit-before-first-attempt")
+		} else {
+			out.Stat("run.crash-before-commit")
+		}
 	}
 	out.Stat("run.buf." + string(c.bufKind))
 	out.Stat(fmt.Sprintf("run.bodykind.%d", c.bodyK))
@@ -1054,7 +1299,40 @@ func c10GenAddr(r *vh.Rng) string {
 	return a
 }
 
-func c10GenRun(r *vh.Rng, big bool) string {
+// edge cases (both for `C10 run` and `C10 smtp`): body sizes at the boundaries - empty, one and two
+// bytes, around bufio's 4096 and io.Copy's 32 KiB buffers, around the endpoint's 1 MiB spill-to-file
+// threshold - crossed with history shapes that put a restart before the first / the next attempt.
+var c10EdgeSizes = []int{0, 1, 2, 4095, 4096, 4097, 32767, 32768, 32769, 1<<20 - 1, 1 << 20, 1<<20 + 1}
+
+const c10EdgeShapes = 6
+
+// c10EdgeHistory prefixes the generated history `rest` (which starts with an attempt on all
+// recipients) according to the shape; allT = an attempt that leaves everybody pending.
+func c10EdgeHistory(shape int, nrcpt int, rest []string, allowNoCommit bool) []string {
+	allT := strings.Repeat("t", nrcpt)
+	for len(rest) > 0 && (rest[0] == "r" || rest[0] == "R") {
+		rest = rest[1:]
+	}
+	switch shape {
+	case 0: // accepted, restart before the first attempt
+		return append([]string{"R"}, rest...)
+	case 1: // the same, two restarts in a row
+		return append([]string{"R", "r"}, rest...)
+	case 2: // everybody deferred, restart before the next attempt
+		return append([]string{"aP" + allT, "r"}, rest...)
+	case 3: // deferred by an atomic and by a partial target, two restarts, next attempt
+		return append([]string{"aA" + allT, "aP" + allT, "r", "r"}, rest...)
+	case 4: // crash between Body and Commit
+		if allowNoCommit {
+			return append([]string{"r"}, rest...)
+		}
+		return append([]string{"aA" + allT, "r"}, rest...)
+	}
+	// the history ends at rest after a restart with everybody pending
+	return []string{"aP" + allT, "r"}
+}
+
+func c10GenRun(r *vh.Rng, big bool, edge int) string {
 	strs := []string{""}
 	add := func(s string) int {
 		for i, x := range strs {
@@ -1119,7 +1397,11 @@ func c10GenRun(r *vh.Rng, big bool) string {
 		na = 5 + r.Intn(6)
 	}
 	if r.Chance(12) {
-		steps = append(steps, "r") // crash between Body and Commit
+		if r.Chance(65) {
+			steps = append(steps, "R") // accepted by a queue that is shutting down, restart before the first attempt
+		} else {
+			steps = append(steps, "r") // crash between Body and Commit
+		}
 		if r.Chance(30) {
 			steps = append(steps, "r")
 		}
@@ -1175,6 +1457,9 @@ func c10GenRun(r *vh.Rng, big bool) string {
 	if len(steps) == 0 || r.Chance(1) {
 		steps = append(steps, "aP"+strings.Repeat("o", len(to)))
 	}
+	if edge >= 0 {
+		steps = c10EdgeHistory((edge/len(c10EdgeSizes))%c10EdgeShapes, len(to), steps, true)
+	}
 	if big && len(steps) == 1 && steps[0][0] == 'a' {
 		// big cases are there for the spool path: a first attempt that keeps everybody pending, a restart, the original attempt
 		steps = []string{"aP" + strings.Repeat("t", len(to)), "r", steps[0]}
@@ -1209,6 +1494,9 @@ func c10GenRun(r *vh.Rng, big bool) string {
 	for _, f := range parsed {
 		fields = append(fields, "r:"+vh.HexBytes(f))
 	}
+	if edge >= 0 && (edge+edge/len(c10EdgeSizes))%3 == 0 {
+		fields = nil // no field at all: the header blob is the blank line only
+	}
 	hugeHdr := big && r.Chance(50)
 	if hugeHdr {
 		// a header larger than any plausible "reasonable header" bound (1 MiB is the endpoint's DEFAULT
@@ -1228,7 +1516,7 @@ func c10GenRun(r *vh.Rng, big bool) string {
 		}
 		fields = append(fields, "r:"+vh.HexBytes([]byte("Subject: after the padding\r\n")), "r:"+vh.HexBytes([]byte("X-Last: 1\r\n")))
 	}
-	if r.Chance(4) {
+	if r.Chance(4) && edge < 0 {
 		bad := []int{1, 4, 7, 8, 9, 10}[r.Intn(6)]
 		f := c10GenField(r, "\r\n", bad)
 		if bytes.IndexByte(f, ':') < 0 {
@@ -1252,6 +1540,10 @@ func c10GenRun(r *vh.Rng, big bool) string {
 	buf := "m"
 	if r.Chance(35) || n >= 1<<20 {
 		buf = "f"
+	}
+	if edge >= 0 {
+		n = c10EdgeSizes[edge%len(c10EdgeSizes)]
+		buf = []string{"m", "f"}[(edge/(len(c10EdgeSizes)*c10EdgeShapes)+edge/len(c10EdgeSizes)+edge)%2]
 	}
 	b := c10GenBody(kind, n, seed)
 	body := fmt.Sprintf("%s:%d:%d:%d:%d", buf, kind, n, seed, c10Digest(b))
@@ -1386,7 +1678,15 @@ func TestVerifC10Run(t *testing.T) {
 		}()
 	}
 	for i := 0; i < n; i++ {
-		jobs <- c10GenRun(r, i < nbig)
+		jobs <- c10GenRun(r, i < nbig, -1)
+	}
+	nedge := len(c10EdgeSizes) * c10EdgeShapes
+	if vh.Thorough() {
+		nedge *= 4
+	}
+	re := vh.NewRng(vh.Seed() + 2011)
+	for e := 0; e < nedge; e++ {
+		jobs <- c10GenRun(re, false, e)
 	}
 	close(jobs)
 	wg.Wait()
